@@ -1,6 +1,6 @@
-(* GENERATED from the Go sources of /var/tmp/mrepo by /verif/tools/gen_model — do not edit. *)
+(* GENERATED from the Go sources of /repo by /verif/tools/gen_model — do not edit. *)
 From Coq Require Import String.
-From OtpV Require Import Prelude Sha GoSem Rfc4648 Errors Decoder Otp Ocra Utils Suite.
+From OtpV Require Import Prelude Sha GoSem Rfc4648 Errors Decoder Otp Ocra Utils Suite Url.
 Open Scope N_scope.
 
 Definition atoi_go (s : bytes) : Z * option err := match atoi s with Some v => (v, None) | None => (0%Z, Some (EStd 11 [])) end.
@@ -16,12 +16,16 @@ Definition lower_ascii (c : N) : N := if (65 <=? c) && (c <=? 90) then c + 32 el
 Definition big_text16 (z : Z) : bytes := if (z <? 0)%Z then 45 :: map lower_ascii (hex_text (Z.to_N (- z))) else map lower_ascii (hex_text (Z.to_N z)).
 (* crypto/rand.Read(buf) fills the whole buffer from the source (oracle parameter) and never reports an error *)
 Definition rand_fill (buf src : bytes) : bytes := firstn (length buf) src ++ skipn (length src) buf.
+Definition assoc_str (l : list (N * bytes)) (k : N) : bytes := match find (fun kv => N.eqb (fst kv) k) l with Some kv => snd kv | None => [] end.
+Definition trim_prefix_go (p s : bytes) : bytes := if is_prefix p s then skipn (length p) s else s.
+Definition splitn2_go (sep : N) (s : bytes) : list bytes := let '(a, b, found) := cut1 sep s in if found then [a; b] else [s].
 Definition b32_decode_go (s : bytes) : bytes * option err :=
   let '(bs, o) := b32_decode_string s in (bs, match o with Some off => Some (EBase32 off) | None => None end).
 
 Definition hmacPools : list alg := [SHA1; SHA256; SHA512].
 Definition g_mod10 : list N := [0; 10; 100; 1000; 10000; 100000; 1000000; 10000000; 100000000; 1000000000; 10000000000].
 Definition g_DefaultHOTPParam : option param := Some (mkParam 6 0 2 0).
+Definition g_algoStrMap : list (N * bytes) := [(0%N, (s2b "SHA1")); (1%N, (s2b "SHA256")); (2%N, (s2b "SHA512"))].
 Definition g_DefaultTOTPParam : option param := Some (mkParam 6 30 0 0).
 
 Definition Digits_Int (d : N) : res Z :=
